@@ -35,13 +35,22 @@ def mark_wrapper(func):
     return wrapped
 
 
+def plain_wrapper(func):
+    """A semantics-preserving wrapper that is a plain closure: it does NOT carry the wrapped function's __name__."""
+    def inner(*a):
+        return func(*a)
+    return inner
+
+
 def algebra_options(opts):
     kw = {}
     if 'cse' in opts:
         kw['cse'] = opts['cse']
     if opts.get('graded'):
         kw['graded'] = True
-    if opts.get('wrapper'):
+    if opts.get('wrapper') == 'plain':
+        kw['wrapper'] = plain_wrapper
+    elif opts.get('wrapper'):
         kw['wrapper'] = mark_wrapper
     if opts.get('symbolcls') == 'sympy':
         import sympy
